@@ -13,5 +13,7 @@ for d in ${@:-$(ls)}; do
   o=$(cd $V && VERIF_EVIDENCE_DIR=/tmp/verif-seed-evidence ./check $p quick 2>&1); rc=$?
   (cd $R && git checkout -q -- .)
   first=$(echo "$o" | grep "failed obligation\|failed bounded" | head -2 | cut -c1-170 | tr '\n' ';')
-  if [ $rc -eq 1 ]; then echo "$d | $p | caught | $first"; else echo "$d | $p | MISSED (rc=$rc)"; fi
+  # does at least one VIOLATION line carry a failing input replayed on the real code?
+  if echo "$o" | grep "^VIOLATION" | grep -qv "no-failing-input-found"; then input="failing-input"; else input="no-input"; fi
+  if [ $rc -eq 1 ]; then echo "$d | $p | caught | $input | $first"; else echo "$d | $p | MISSED (rc=$rc)"; fi
 done
